@@ -26,6 +26,12 @@ CLAIMED.update({
  "C20": dict(text="frame conditions on every table row: decoding writes to no pre-existing object and never returns a shared definition (executor write log); eco/schedule rows are a known finding",
              note="F3/F4 (module globals, inverter methods) are part of the orchestration units (not yet built)", ref="4/C20"),
 })
+CLAIMED.update({
+ "C14": dict(text="call-site precondition of Inverter._map_response on every path of the read_runtime_data exploration (all invariant states x refusal sets): the read footprint of every row (from symbolic execution of its real read) lies inside the fetched window; ET MPPT apparent_power2/3 are a known finding",
+             note="transport under assumed contract (full-length answers); finite space of (block, row) pairs enumerated completely", ref="4/C14"),
+ "C15": dict(text="object invariant of ET/DT (capability flags agree with sensor tuples) established by read_device_info on all paths (model predicates and rated power symbolic) and preserved by read_runtime_data; from every invariant state and every refusal set of the optional blocks: keys == sensors() on return and success by the second call",
+             note="transport and _map_response under contract; transient failures outside the quantifier; mandatory blocks (running data, basic meter) never refused", ref="4/C15"),
+})
 REASONS = {}
 checks = []
 for p in props:
